@@ -813,3 +813,101 @@ func (P *Prog) EvalNoCallClause(c *Clause, unit string) ([]*Obligation, error) {
 	}
 	return out, nil
 }
+
+// EvalNoEqClause decides `noeq[label] <pkg-suffix>... : <named type>...`: no function of the named packages compares with
+// == or != two values whose type is, or contains by value (struct fields, array elements), one of the listed named types.
+// Used for values whose Go equality does not survive encoding/json (time.Time: monotonic reading and location pointer are
+// part of ==, not of the encoded form; only Equal survives). One obligation per package.
+func (P *Prog) EvalNoEqClause(c *Clause, unit string) ([]*Obligation, error) {
+	colon := strings.Index(c.Text, " : ")
+	if colon < 0 {
+		return nil, fmt.Errorf("%s:%d: noeq <pkg>... : <named type>...", c.File, c.Line)
+	}
+	pkgs := strings.Fields(c.Text[:colon])
+	names := strings.Fields(c.Text[colon+3:])
+	if len(pkgs) == 0 || len(names) == 0 {
+		return nil, fmt.Errorf("%s:%d: noeq needs packages and type names", c.File, c.Line)
+	}
+	label := strings.Join(c.Labels, ",")
+	var contains func(t types.Type, depth int) string
+	contains = func(t types.Type, depth int) string {
+		if depth > 6 {
+			return ""
+		}
+		t = types.Unalias(t)
+		if n, ok := t.(*types.Named); ok && n.Obj() != nil && n.Obj().Pkg() != nil {
+			full := n.Obj().Pkg().Path() + "." + n.Obj().Name()
+			for _, w := range names {
+				if full == w {
+					return full
+				}
+			}
+		}
+		switch u := t.Underlying().(type) {
+		case *types.Struct:
+			for i := 0; i < u.NumFields(); i++ {
+				if r := contains(u.Field(i).Type(), depth+1); r != "" {
+					return r
+				}
+			}
+		case *types.Array:
+			return contains(u.Elem(), depth+1)
+		}
+		return ""
+	}
+	hits := map[string][]string{}
+	count := map[string]int{}
+	seenPkg := map[string]bool{}
+	var keys []string
+	for k := range P.Funcs {
+		keys = append(keys, k)
+	}
+	sort.Strings(keys)
+	for _, k := range keys {
+		fn := P.Funcs[k]
+		if len(fn.Blocks) == 0 || fn.Pkg == nil || !inModule(fn.Pkg.Pkg) {
+			continue
+		}
+		path := fn.Pkg.Pkg.Path()
+		match := ""
+		for _, p := range pkgs {
+			if strings.HasSuffix(path, p) {
+				match = p
+			}
+		}
+		if match == "" {
+			continue
+		}
+		seenPkg[match] = true
+		count[match]++
+		fns := append([]*ssa.Function{fn}, fn.AnonFuncs...)
+		for _, f := range fns {
+			for _, b := range f.Blocks {
+				for _, ins := range b.Instrs {
+					bo, ok := ins.(*ssa.BinOp)
+					if !ok || (bo.Op != token.EQL && bo.Op != token.NEQ) {
+						continue
+					}
+					if w := contains(bo.X.Type(), 0); w != "" {
+						pos := P.Fset.Position(bo.Pos())
+						hits[match] = append(hits[match], fmt.Sprintf("%s:%d: %s compares values containing %s with %s", filepathBase(pos.Filename), pos.Line, shortKey(k), w, bo.Op))
+					}
+				}
+			}
+		}
+	}
+	var out []*Obligation
+	for _, p := range pkgs {
+		if !seenPkg[p] {
+			return nil, fmt.Errorf("%s:%d: noeq: no function found in package %s", c.File, c.Line, p)
+		}
+		o := &Obligation{Func: unit, Name: fmt.Sprintf("[%s:%s]", label, p), Kind: "ground", Detail: fmt.Sprintf("no == / != on values containing %v in the %d functions of %s", names, count[p], p), Clause: c,
+			Goal: "true", Guard: "true", Solver: "flow-judgement", Result: "unsat", Site: token.Position{Filename: c.File, Line: c.Line}}
+		if len(hits[p]) > 0 {
+			o.Result = "sat"
+			o.Model = "values whose equality does not survive the dump are compared with == / !=:\n  " + strings.Join(hits[p], "\n  ")
+		}
+		out = append(out, o)
+	}
+	return out, nil
+}
